@@ -10,7 +10,7 @@ CONFIG = {
     ],
     "modelled": ["cache.AddToUHash", "cache.RemoveFromUHash", "cache.SetUserID", "cache.SearchUserRaw", "cache.DoSearchUserRaw",
                  "cache.GetUserID", "cache.LoadUHash", "cache.fillUHash", "cache.InitFillUHash", "cache.userecRawAddToUHash",
-                 "cache.checkHash", "cache.SHM.Reset", "lookup histories across two processes (op prefix peer)", "cache.NewSHM / shm.CreateShm / shm.OpenShm (isCreate, isNew, header initialisation, Version/Size handshake)", "ptt.SetupNewUser at the index level (checks, free-slot search, SetUserID, failing .PASSWDS write; op register)", "ptt.tryCleanUser/killUser effect on .PASSWDS (sweepFile; ops expire, register … sweep)", "main_init start sequence of a second process (NewSHM + LoadUHash; op restart)",
+                 "cache.checkHash", "cache.SHM.Reset", "lookup histories across two processes (op prefix peer)", "cache.NewSHM / shm.CreateShm / shm.OpenShm (isCreate, isNew, header initialisation, Version/Size handshake)", "ptt.SetupNewUser at the index level (checks, free-slot search, SetUserID, failing .PASSWDS write; op register)", "bbs.UUserID.ToRaw + bbs.CheckExistsUser (api-level lookup of an id of any length; op exists)", "ptt.tryCleanUser/killUser effect on .PASSWDS (sweepFile; ops expire, register … sweep)", "main_init start sequence of a second process (NewSHM + LoadUHash; op restart)",
                  "cmsys.StringHashWithHashBits/fnv1a32StrCase", "types.Cstrcmp", "types.Cstrcasecmp", "ptttype.UserID_t.IsValid"],
     "assumptions": [
         "histories inside the quantifier: SetUserID on any slot; RemoveFromUHash followed (before any reload) by AddToUHash/SetUserID of that slot; AddToUHash only on a slot that is on no chain; cold load from a zeroed segment with at most MAX_USERS records; on-the-fly reload (by the owner or by a freshly started creator/opener process) from a file whose ids equal the live ids as C strings, possibly shorter, torn or missing; detached slots covered by the file are linked again (PRE_ALLOCATED_USERS >= MAX_USERS: no record is skipped)",
